@@ -41,7 +41,7 @@ class EIO(Engine):
                    'a mapped file is never truncated by another process (SIGBUS is outside every property)']
     expected_probes = ('write:chunk_boundary_crossed_partial_final_byte', 'write:fault_on_first_write',
                        'write:fault_on_last_write', 'write:torn', 'write:lazy_file_source',
-                       'read:window_ends_mid_byte', 'read:window_at_end', 'fromfile:short', 'roundtrip:ok', 'write:lsb0_mode', 'read:lsb0_mode', 'write:mutated_then_serialised_again')
+                       'read:window_ends_mid_byte', 'read:window_at_end', 'fromfile:short', 'fromfile:negative_count', 'roundtrip:ok', 'write:lsb0_mode', 'read:lsb0_mode', 'write:mutated_then_serialised_again')
     exhaustive = True
 
     # -------------------------------------------------------------------------------------------------
@@ -189,7 +189,7 @@ class EIO(Engine):
             d = self.B.Dtype(cfg['dtype']) if not cfg['dtype'].startswith('bytes') else self.B.Dtype(cfg['dtype'])
             w = d.bitlength
             avail = (len(data) * 8) // w
-            for n in sorted({None, 0, 1, avail - 1, avail, avail + 1, avail + 5} - {-1}, key=lambda x: -1 if x is None else x):
+            for n in sorted(({None, 0, 1, avail - 1, avail, avail + 1, avail + 5} - {-1}) | {-1, -3}, key=lambda x: -10 if x is None else x):
                 for pre in (0, 2):
                     self.queue.append({'k': 'fromfile', 'n': n, 'pre': pre, 'via': 'handle'})
                     self.queue.append({'k': 'fromfile', 'n': n, 'pre': pre, 'via': 'bytesio'})
@@ -616,14 +616,14 @@ class EIO(Engine):
         allbits = bytes_to_bits(data)
         dt = self.cfg['dtype']
         n, pre, via = ev.get('n'), ev.get('pre', 0), ev.get('via', 'handle')
-        if n is not None and (not isinstance(n, int) or n < 0):
-            return {'skip': 'negative n'}, []
+        if n is not None and not isinstance(n, int):
+            return {'skip': 'n is not an integer'}, []
         a = B.Array(dt)
         w = a.dtype.bitlength
         prebits = ('01' * w)[:w] * pre
         a.data = B.BitArray(bin=prebits)
         avail = len(allbits) // w
-        take = avail if n is None else min(n, avail)
+        take = avail if n is None else max(0, min(n, avail))     # a negative count selects nothing: refused (ValueError) or nothing appended
         want = prebits + allbits[:take * w]
         incs = []
         h = None
@@ -648,6 +648,10 @@ class EIO(Engine):
             self.probe('fromfile:short')
             if st != 'exc' or not exc_is(v, 'EOFError'):
                 incs.append(self.inc('fromfile|short-without-EOFError', dtype=dt, n=n, avail=avail, outcome=st, exc=kernel.canon(v)))
+        elif n is not None and n < 0:
+            self.probe('fromfile:negative_count')
+            if st != 'ok' and not exc_is(v, 'ValueError'):
+                incs.append(self.inc('fromfile|negative-count-raised-other-than-ValueError', dtype=dt, n=n, exc=kernel.canon(v)))
         elif st != 'ok':
             incs.append(self.inc('fromfile|raised', dtype=dt, n=n, avail=avail, exc=kernel.canon(v)))
         got = kernel.safe_bin(a.data)
